@@ -61,7 +61,7 @@ func Spec() *run.Spec {
 	return &run.Spec{
 		ID: "C13", Level: "exploration",
 		Rule: "one case = one concurrent history on a fresh graph.Instance: graph shape (the DESIGN graph p1..p3 -> M1,M2 -> T or a random DAG of 2-5 parameters " +
-			"(string/int/file/Vector3Array), 3-6 join nodes, 2-4 text/binary producers plus a real stl.Artifact over a mesh that aliases each vector parameter's slice), 2-8 clients x 3-8 operations drawn from UpdateParameter (unique values; a few with an " +
+			"(string/int/file/Vector3Array/Float64/Vector3 — float values include +0/-0, denormals, +-MaxFloat64 and are rendered and compared by bits), 3-6 join nodes, 2-4 text/binary producers plus a real stl.Artifact over a mesh that aliases each vector parameter's slice), 2-8 clients x 3-8 operations drawn from UpdateParameter (unique values; a few with an " +
 			"undecodable payload), ParameterData, Artifact+Write; seeded pauses inside the node processors and between client operations. " +
 			"non-trivial = the recorded history has operations of different clients that overlap in time (by the logical clock) and contains at least one update and one artifact read; " +
 			"signature = graph shape/parameter kinds/depth/producers x clients x operation mix bucket.",
@@ -92,7 +92,9 @@ func Spec() *run.Spec {
 			"graph_shapes":                      3,
 			"two_route_graphs":                  total / 2,
 			"rejected_updates":                  total / 20,
-			"param_kinds":                       4,
+			"param_kinds":                       6,
+			"signed_zero_updates":               total / 4,
+			"float_updates":                     total / 2,
 			"stl_artifact_reads":                total / 4,
 			"stl_artifacts_written_after_pause": total / 8,
 			"vec_updates":                       total / 2,
@@ -212,7 +214,9 @@ func model(d *graphDesc, init []string) porcupine.Model {
 				if in.Bad {
 					return out.Err && !out.Ok, st
 				}
-				if out.Err || !out.Ok {
+				// the boolean result ("changed?") is not part of the specification: a repeated
+				// value may be a no-op in effect as long as every read shows the model's bits
+				if out.Err {
 					return false, st
 				}
 				vals := strings.Split(st, sep)
@@ -220,7 +224,7 @@ func model(d *graphDesc, init []string) porcupine.Model {
 				return true, strings.Join(vals, sep)
 			case opRead:
 				vals := strings.Split(st, sep)
-				return out.Val == string(encodeParam(d.Params[in.Param].Kind, vals[in.Param])), st
+				return out.Val == readExpect(d.Params[in.Param].Kind, vals[in.Param]), st
 			default:
 				vals := strings.Split(st, sep)
 				if in.ZipFail {
@@ -280,6 +284,7 @@ func runHistory(c *run.Ctx, viaHTTP bool) run.Result {
 	}
 	nClients := 2 + r.Intn(7)
 	plans := make([][]planOp, nClients)
+	lastVec := map[[2]int]string{}
 	mix := [3]int{}
 	updWeight := 25 + r.Intn(35)
 	readWeight := 10 + r.Intn(20)
@@ -304,6 +309,35 @@ func runHistory(c *run.Ctx, viaHTTP bool) run.Result {
 					// lengths 1..6: shorter, equal and longer than whatever is current, so that
 					// some values fit the capacity of the array they replace
 					op.Val = fmt.Sprintf("v%dx%d", 100*(ci+1)+j, 1+r.Intn(6))
+					if r.Intn(3) == 0 {
+						op.Val += "m" // element 0's y is -0
+					}
+					// the client's previous value again with only the sign of that zero flipped:
+					// == in every component, not bit-identical
+					if prev := lastVec[[2]int{ci, op.Param}]; prev != "" && r.Intn(3) == 0 {
+						if vecNeg(prev) {
+							op.Val = strings.TrimSuffix(prev, "m")
+						} else {
+							op.Val = prev + "m"
+						}
+					}
+					lastVec[[2]int{ci, op.Param}] = op.Val
+				case pFloat:
+					// signed zeros, denormals, +-MaxFloat64 (genuinely repeated values included),
+					// and unique ordinary values
+					if r.Intn(10) < 6 {
+						op.Val = floatDisplay(specialFloats[r.Intn(len(specialFloats))])
+					} else {
+						op.Val = floatDisplay(float64(1000*(ci+1)+j) + 0.5)
+					}
+				case pVec3:
+					pick := func() float64 {
+						if r.Intn(10) < 7 {
+							return specialFloats[r.Intn(len(specialFloats))]
+						}
+						return float64(1000*(ci+1)+j) + 0.25
+					}
+					op.Val = vec3Display(pick(), pick(), pick())
 				}
 				// an undecodable payload (File parameters accept any bytes)
 				op.Bad = d.Params[op.Param].Kind != pFile && r.Intn(9) == 0
@@ -408,6 +442,7 @@ func runHistory(c *run.Ctx, viaHTTP bool) run.Result {
 			rec.Call = atomic.AddInt64(&clock, 1)
 			pn = run.Try(func() { rec.Out = string(lv.g.ParameterData(id)) })
 			rec.Ret = atomic.AddInt64(&clock, 1)
+			rec.Out = readCanon(d.Params[op.Param].Kind, rec.Out)
 		case opArtifact:
 			name := d.Producers[op.Prod].Name
 			rec.Arg = name
@@ -626,6 +661,20 @@ func runHistory(c *run.Ctx, viaHTTP bool) run.Result {
 				seenUpdate = true
 				if poisonDisplay(d.Params[op.plan.Param].Kind, op.plan.Val) {
 					res.Count("poison_updates", 1)
+				}
+				switch d.Params[op.plan.Param].Kind {
+				case pFloat, pVec3:
+					res.Count("float_updates", 1)
+					for _, f := range parseFloatDisplay(op.plan.Val) {
+						if f == 0 {
+							res.Count("signed_zero_updates", 1)
+							break
+						}
+					}
+				case pVec:
+					if vecNeg(op.plan.Val) {
+						res.Count("signed_zero_updates", 1)
+					}
 				}
 				if d.Params[op.plan.Param].Kind == pVec {
 					_, n := parseVec(op.plan.Val)
